@@ -677,6 +677,23 @@ func (s *scen) exec(st *Step) {
 	case "model":
 		// the code-shaped model's prediction for the state just observed (spec -> code conformance; judged by the trace spec)
 		s.emit(J{"k": "model", "w": st.W, "wl": st.Model.WL, "nmarks": st.Model.NMarks, "nwd": st.Model.NWd, "npath": st.Model.NPath})
+	case "chdir":
+		// the working directory of the scenario (relative Add arguments are relative to it)
+		// (leaving a removed directory releases its inode: the kernel reports DELETE_SELF only now)
+		err := os.Chdir(s.fsPath(st.P))
+		ret := "ok"
+		if err != nil {
+			ret = "errno:" + errnoName(err)
+		}
+		s.emit(J{"k": "fs", "op": "chdir", "p": orEmpty(st.P), "to": []string{}, "fd": "", "ret": ret, "ino": "", "kind": "", "shadow": s.sh.drain()})
+	case "fault":
+		if w := s.ws[st.W]; w != nil && w.W != nil {
+			fsnotify.VerifInotifyReadFault(w.W, st.Recurse)
+			if st.Recurse {
+				s.quiesce() // the reader has hit the failing read and is parked sending the error
+			}
+		}
+		s.emit(J{"k": "fault", "w": st.W, "on": st.Recurse})
 	case "recurse":
 		fsnotify.VerifSetRecurse(st.Recurse)
 		s.emit(J{"k": "recurse", "on": st.Recurse})
